@@ -22,8 +22,17 @@ THEOREMS = [
     ('NoteSeqVerif.Props.C12_quantize', 'NSV.C12.quantizeRel_perm'),
     ('NoteSeqVerif.Props.C12_quantize', 'NSV.C12.foldl_max_perm'),
 ]
-# further operation families register themselves here as their models land
+# further operation families register themselves here as their models land: every harness/c12_extra_*.py exposes
+# EXTRA = [(lean module, [theorem names], exe or None), ...] and optionally run_streams(chk) (model tie on permuted inputs)
 EXTRA = []   # list of (module, [theorems], exe or None)
+EXTRA_MODS = []
+import glob as _glob
+import importlib as _importlib
+import os as _os
+for _f in sorted(_glob.glob(_os.path.join(_os.path.dirname(__file__), 'c12_extra_*.py'))):
+    _m = _importlib.import_module('harness.' + _os.path.basename(_f)[:-3])
+    EXTRA.extend(_m.EXTRA)
+    EXTRA_MODS.append(_m)
 
 
 # ----------------------------------------------------------------------------- generator
@@ -270,6 +279,9 @@ def run(chk):
             chk.sample({'sequence': nswire.encode(ns)[:400] + ' …', 'operations': [n for n, _ in operations(rng, ns, quant_ok)]})
         if len(chk.failures) > 10:
             break
+    for m in EXTRA_MODS:
+        if hasattr(m, 'run_streams'):
+            m.run_streams(chk)
     out = chk.driver('drv_c01', model_reqs)
     for req, a, b in zip(model_reqs, model_impl, out):
         chk.count('model:quantize', req[:1500], b != 'bad-op', a.split()[0])
